@@ -35,6 +35,9 @@ def consumption(ctx):
     reads = {n.attr for n in ast.walk(conv.node) if isinstance(n, ast.Attribute) and isinstance(n.value, ast.Name) and n.value.id == node_p}
     pn_p = pn.params[0]
     reads_pn = {n.attr for n in ast.walk(pn.node) if isinstance(n, ast.Attribute) and isinstance(n.value, ast.Name) and n.value.id == pn_p}
+    # the children of the node are nodes too: what is read from the loop variable over them counts (e.g. child.tail)
+    for lp_ in [x for x in ast.walk(pn.node) if isinstance(x, ast.For) and unparse(x.iter) in (pn_p, f"list({pn_p})", f"iter({pn_p})") and isinstance(x.target, ast.Name)]:
+        reads_pn |= {n.attr for n in ast.walk(lp_) if isinstance(n, ast.Attribute) and isinstance(n.value, ast.Name) and n.value.id == lp_.target.id}
     for member in ('tag', 'text', 'attrib'):
         res.check(member in reads, 'R-CONSUME', conv.fq, f"node.{member} is read", key=f"R-CONSUME|{member}")
     res.check('tail' in reads | reads_pn, 'R-CONSUME', conv.fq, "node.tail (text after the element's end tag) is read or rejected",
@@ -55,7 +58,10 @@ def consumption(ctx):
     res.check(ok, 'R-CONSUME', pn.fq, "every path iterates all children of the node in document order", key='R-CONSUME|child-loop')
     for ln in loops:
         tgt = unparse(ln.stmt.target)
-        body = ln.stmt.body
+        body = list(ln.stmt.body)
+        # rejections may precede the add (`if <cond>: raise ...` guard clauses); the add itself is the last statement, at the top level of the body
+        while len(body) > 1 and isinstance(body[0], ast.If) and not body[0].orelse and body[0].body and isinstance(body[0].body[-1], ast.Raise):
+            body = body[1:]
         good = len(body) == 1 and isinstance(body[0], ast.Expr) and isinstance(body[0].value, ast.Call) and \
             unparse(body[0].value.func).endswith('.add_child') and [unparse(a) for a in body[0].value.args] == [f"{pn.name}({tgt})"] and not body[0].value.keywords
         res.check(good, 'R-CONSUME', pn.fq, "each child is parsed recursively and added, unconditionally", fail_detail=short(body), key='R-CONSUME|child-add')
